@@ -62,6 +62,7 @@ type vpStore struct {
 	watchMode int  // 0: NATS-like (initial value, nil marker, stays open); 1: mock-like (initial value, closed)
 	watchFail bool // Watch() returns an error
 	noEvents  bool // watch events are never delivered (lost)
+	watchStopYield bool // Watcher.Stop() is a scheduling point
 	onExpire  func(owner string)  // harness monitor, called when the record is found to have lapsed
 	onWrite   func(by, op string) // harness monitor, called before a successful mutation is applied
 	cut       bool // store unreachable: operations fail/hang according to the handle's fault config
@@ -191,6 +192,7 @@ func (e *vpEntry) Value() []byte    { return e.v }
 func (e *vpEntry) Revision() uint64 { return e.rev }
 
 type vpWatcher struct {
+	stopYield bool
 	ch      chan Entry
 	stopped bool
 	closed  bool
@@ -198,7 +200,12 @@ type vpWatcher struct {
 }
 
 func (w *vpWatcher) Updates() <-chan Entry { return w.ch }
-func (w *vpWatcher) Stop()                { w.stopped = true }
+func (w *vpWatcher) Stop() {
+	if w.stopYield {
+		vpYield("watch.stop") // stopping a watcher is a call into the client library: optionally a scheduling point
+	}
+	w.stopped = true
+}
 func (w *vpWatcher) push(e Entry) {
 	if len(w.ch) == cap(w.ch) {
 		w.dropped++ // a consumer that does not keep up loses the event (never happens within the budgets used)
@@ -230,6 +237,8 @@ type vpKV struct {
 	cutLat    time.Duration
 	latResp   time.Duration // bound of the response leg (0 = immediate)
 	ackYield  bool
+	afterApply func(op string)
+	latMin    time.Duration // lower bound of the request latency (latMin == lat: concrete latency)
 	faultForce bool // inject faults[0] without asking the explorer
 	watchFailLeft int
 }
@@ -265,7 +274,7 @@ func (k *vpKV) begin(op string) int {
 	if f == vpFaultHang {
 		vpBlockForever()
 	}
-	vpDelay(op+".req", 0, k.lat)
+	vpDelay(op+".req", k.latMin, k.lat)
 	if k.st.cut && f == vpFaultNone {
 		// the store became unreachable before the request arrived: error after a while, or no answer at all
 		if vpChoose("cut."+op, 2) == 1 {
@@ -277,6 +286,9 @@ func (k *vpKV) begin(op string) int {
 	return f
 }
 func (k *vpKV) end(op string, f int) int {
+	if k.afterApply != nil {
+		k.afterApply(op) // adversarial environment: acts right after this operation was applied
+	}
 	if f == vpFaultHangAfter {
 		vpBlockForever()
 	}
@@ -361,7 +373,7 @@ func (k *vpKV) Watch(key string, opts ...interface{}) (Watcher, error) {
 		}
 		return nil, k.st.errUnreachable()
 	}
-	w := &vpWatcher{ch: make(chan Entry, 32)}
+	w := &vpWatcher{ch: make(chan Entry, 32), stopYield: k.st.watchStopYield}
 	s := k.st
 	s.expire()
 	if s.lastSeq != 0 {
